@@ -88,6 +88,16 @@ fn main() {
             );
             return;
         }
+        "C13" => {
+            let mut p = make_part("real-burst-vs-paced", "CONV/sock", cli.cases(10, 400), props_sock2::c13_burst_strategy, |_| (), |w, c| props_sock2::c13_burst_test(w, c));
+            p.max_workers = Some(4);
+            p.max_shrink_iters = 3;
+            parts.push(p);
+            (
+                "part real-burst-vs-paced: the whole Server over real TCP/UNIX sockets: 3-40 pipelined requests written in one piece while the application starts receiving 0-80 ms later, and the same bytes written one request at a time with the application receiving all along; oracle (metamorphic, re-measured): the requests the application receives and the status codes the client reads are the same; non-trivial: >= 9 requests",
+                vec!["real-time part: a difference must repeat on fresh servers to count"],
+            )
+        }
         "C07" => {
             let mut p = make_part("real-edge", "CONV/sock", cli.cases(40, 2_000), props_sock2::c07_real_edge_strategy, |_| (), |w, c| props_sock2::c07_real_edge_test(w, c));
             p.max_workers = Some(4);
